@@ -1,6 +1,6 @@
 CONSTANTS
   Mode = "str"
-  Lim = 3
+  Lim = 2
   MaxLen = 6
 INIT Init
 NEXT Next
